@@ -31,7 +31,7 @@ ASSUMPTIONS = ["hostile clients always disconnect in the end (a silent client th
                "object ids replayed on a foreign connection of the forking server may coincide with an object of the "
                "replaying client's own process; that is judged by content (the owner's token must not come back)"]
 SHARDS = {"quick": 1, "thorough": 8}
-MIN_DISTINCT = {"quick": 60, "thorough": 300}
+MIN_DISTINCT = {"quick": 60, "thorough": 250}
 WATCHDOG = {"quick": 600, "thorough": 3 * 3600}
 STUCK_LIMIT = 240
 
@@ -607,7 +607,7 @@ def run_config(sc, cfg, quick):
         seen = set()
         ridx = 0
         plan = []
-        passes = 1 if (quick and slow) else 2
+        passes = (1 if slow else 2) if quick else 3
         for _ in range(passes):
             order = list(pure_classes)
             rng.shuffle(order)
@@ -616,7 +616,7 @@ def run_config(sc, cfg, quick):
                     plan.append(("pure", [cls] * (2 if slow else 4), 2 if slow else 3))
                 else:
                     plan.append(("pure", [cls] * (3 if slow else rng.randrange(4, 9)), 2 if slow else rng.randrange(3, 6)))
-        nmixed = ((1 if slow else 3) if quick else (6 if slow else 25))
+        nmixed = ((1 if slow else 3) if quick else (15 if slow else 60))
         for _ in range(nmixed):
             m = rng.randrange(4, 9) if (slow or quick) else rng.randrange(4, 17)
             plan.append(("mixed", [rng.choice(classes) for _ in range(m)], 3 if (slow or quick) else rng.randrange(4, 9)))
